@@ -1,6 +1,7 @@
 import ChessVerif.Props.C09
 import ChessVerif.Props.C09mates
 import ChessVerif.Props.C09examples
+import ChessVerif.Props.C09closure
 #print axioms ChessVerif.C09.isCheckmate_iff
 #print axioms ChessVerif.C09.isStalemate_iff
 #print axioms ChessVerif.C09.isCheckmate_eq_rules
@@ -8,3 +9,6 @@ import ChessVerif.Props.C09examples
 #print axioms ChessVerif.C09.C09
 #print axioms ChessVerif.C09.C09_full_without_epSound_false
 #print axioms ChessVerif.C09.legalMoves_ne_nil_of_legal
+#print axioms ChessVerif.Props.C09closure.epSound_apply
+#print axioms ChessVerif.Props.C09closure.epSound_make
+#print axioms ChessVerif.Props.C09closure.mate_tests_exact_after_move
